@@ -231,9 +231,9 @@ def run(ctx: Ctx) -> Result:
     mon_c04.COUNTER_DIR = str(cdir)
     st = explore_all(
         ctx, [make_factory(s) for s in specs],
-        max_states=ctx.pick(4000, 40000), max_seconds=ctx.pick(110, 1500))
+        max_states=ctx.pick(4000, 40000), max_seconds=ctx.pick(600, 3000))
     counts = mon_c04.read_counts(str(cdir))
-    if not st.violations and not st.error:
+    if not st.violations and not st.error and not st.capped:
         need = ['releases', 'releases-at-start-up', 'releases-at-limit',
                 'releases-with-others-held-back',
                 'releases-with-future-offset', 'releases-with-stop-cap',
